@@ -28,6 +28,19 @@ omitted; <slot> a decimal slot number):
         t read() returns str, e read() raises OSError, x object without read()
   lc:...                                   same as ld through the class: list(Loader(file, format, protein=...))
   gl:<dst>:<loaded slot>:<index>:<c|w|s>   matrices of the index-th loaded motif
+  es:<dst>:<sequence v>:<protein v|->      EncodedSequence(sequence, protein)   (protein positional)
+  et:<dst>:<es slot>                       encoded.stripe()
+  cp:<dst>:<slot>:<m|c>                    obj.copy() (m; only EncodedSequence / StripedSequence have it) or copy.copy(obj) (c)
+  eq:<slot>:<other v>                      obj == other  (CountMatrix / WeightMatrix / ScoringMatrix)
+  sr:<es slot>                             str(encoded)
+  sd:<dst>:<sm slot>                       sm.score_distribution (digest of the survival function; `same`: two accesses give
+                                           one object; `shared`: the object is also the distribution of another live matrix)
+  fo:<dst>:<data hex>                      io.BytesIO(data): one file object that several loaders may share
+  ll:<dst>:<file slot>:<format v|->:<protein v|->   Loader(file, format, protein=...) - lazy, nothing is iterated
+  ln:<loader slot>:<k>                     up to k next() calls (stops at StopIteration or at an exception)
+  mt:<sm slot>:<n>                         n threads, each with its own sequence, share the scoring matrix read-only
+                                           (calculate, max, argmax, pvalue); outcome `mt:ok` when every thread got
+                                           what the same calls give sequentially
   dl:<slot>                                the history drops its (last) reference to the object: del, gc.collect(), then
                                            allocation churn (new matrices / sequences of the same size, kept alive) so
                                            that freed memory is reused while scanners / scores derived from it live on
@@ -35,10 +48,15 @@ omitted; <slot> a decimal slot number):
   the current position): fb<k> open(path,"rb") after read(k), fu<k> the same unbuffered (FileIO), fk<k> after
   seek(k), fn<n> after n readline() calls, fe after read() to the end, fz<k> gzip.open(path,"rb") after read(k),
   fx text-mode file (read() returns str)
+  X<w><k>c<n>: a file object serving at most n bytes per read() whose k-th read() call (k >= 2; the first call is
+  load()'s read(0) probe) misbehaves: w = k raises KeyError, p raises PermissionError(13), o raises OSError without
+  errno, s returns str, n returns None, m returns 5 bytes too many, c closes the underlying file (every later read
+  fails); the iteration then goes on for up to 3 more next() calls after the first exception
 
 Outcomes: V:<visible content> | E:<exception type name> | P (PanicException) | U (slot unbound / wrong use,
 nothing was called).  A crash of the interpreter is reported by the supervisor (c17_main.py) as A:<signal>.
 """
+import copy
 import gc
 import gzip
 import io
@@ -92,6 +110,8 @@ def render(obj):
         return "sc:%d:%s" % (n, ",".join(str(lmcore.f32bits(obj[i])) for i in range(n)) or "-")
     if isinstance(obj, lightmotif.Scanner):
         return "scanner"
+    if isinstance(obj, lightmotif.EncodedSequence):
+        return "es:%s:%s" % (tag(obj.protein), str(obj).encode("utf-8").hex() or "-")
     if isinstance(obj, lightmotif.Motif):
         extra = ""
         if isinstance(obj, lightmotif.JasparMotif):
@@ -648,7 +668,12 @@ def run_op(cs, op):
         cs.shadow.pop(dst, None)
         p = boolv(protein)
         fm = "jaspar" if fmt is None else (fmt[1] if fmt[0] == "s" else None)
-        good = mode in ("p", "b") or mode[0] == "r" or (mode[0] == "f" and mode != "fx")
+        faulty = None
+        if mode[0] == "X":
+            w, rest = mode[1], mode[2:]
+            kth, chunk = (int(x) for x in rest.split("c"))
+            faulty = (w, kth, chunk)
+        good = mode in ("p", "b") or mode[0] == "r" or (mode[0] == "f" and mode != "fx") or faulty is not None
         full = data
         if mode == "r0" or mode == "fe":
             data = b""
@@ -670,12 +695,28 @@ def run_op(cs, op):
                         out.append("ok+%s+%s+%s+%s+%s+%s" % (it[1], hx(it[2]), hx(it[3]), hx(it[4]), hx(it[5]),
                                                          "N" if it[6] is None else c(it[6])))
                 return "&".join(out) or "none"
-            items = cs.core("read~%s~%s~%s" % (fm, tag(p), data.hex() or "-"), lambda: lmcore.read_all(fm, p, data), ren)
+            def ren_item(it):
+                return "panic" if it[0] == "panic" else None
+            if faulty is not None:
+                kind = {"p": "perm", "m": "invalid"}.get(faulty[0], "other")
+                ren0 = ren
+
+                def ren(items):
+                    keep = [it for it in items if it[0] != "panic"]
+                    out = []
+                    for it in items:
+                        out.append("panic" if it[0] == "panic" else ren0([it]))
+                    return "&".join(out) or "none"
+                items = cs.core("read_faulty~%s~%s~%s~%s" % (fm, tag(p), mode, data.hex() or "-"),
+                                lambda: lmcore.read_faulty(fm, p, data, faulty[2], faulty[1] - 1, kind, faulty[0] == "c"), ren)
+            else:
+                items = cs.core("read~%s~%s~%s" % (fm, tag(p), data.hex() or "-"), lambda: lmcore.read_all(fm, p, data), ren)
             if items is not None:
                 for it in items:
-                    if it[0] != "ok" or it[6] is None:
-                        shadows.append(None)
-                        continue
+                    if it[0] != "ok":
+                        continue            # errors and panics yield no motif
+                    if it[6] is None:
+                        continue            # TRANSFAC record without counts: ValueError, no motif
                     if it[1] == "uniprobe":
                         r = cs.sh_motif_from_freq(it[6])
                         shadows.append(None if r is None else {"c": None, "w": r[0], "s": r[1]})
@@ -719,6 +760,8 @@ def run_op(cs, op):
                     elif mode == "fe":
                         fobj.read()
                 opened = fobj
+            elif faulty is not None:
+                fobj = FaultyFile(data, *faulty)
             elif mode == "x":
                 fobj = NoRead()
             else:
@@ -727,14 +770,22 @@ def run_op(cs, op):
             kw = {} if protein is None else {"protein": cs.val(protein)}
             loader = (lightmotif.load if name == "ld" else lightmotif.Loader)(*args, **kw)
             motifs, out = [], []
-            while True:
+            after = 0
+            while after <= 3:
                 try:
                     m = next(loader)
                 except StopIteration:
                     break
                 except BaseException as e:
                     out.append(exc_outcome(e))
-                    break
+                    if faulty is None:
+                        break
+                    after += 1
+                    if after > 3:
+                        break
+                    continue
+                if after:
+                    after += 1
                 motifs.append(m)
                 out.append(render(m))
                 if len(out) > 10000:
@@ -771,6 +822,195 @@ def run_op(cs, op):
                 cs.shadow[dst] = sh["motifs"][idx][which]
         cs.slots[dst] = obj
         return "V:" + render(obj)
+
+    if name == "es":
+        dst, seq, protein = int(f[1]), arg(2), arg(3)
+        cs.slots.pop(dst, None)
+        cs.shadow.pop(dst, None)
+        p = boolv(protein)
+        if p is not None and seq is not None and seq[0] == "s":
+            try:
+                text = seq[1].encode("utf-8")
+            except UnicodeEncodeError:
+                text = None
+            if text is not None:
+                r = cs.core("encode~%s~%s" % (tag(p), text.hex() or "-"), lambda: lmcore.stripe(p, seq[1], 0), lambda r: "ok")
+                if r is not None:
+                    cs.shadow[dst] = {"es": (p, seq[1])}
+        args = [cs.val(seq)] + ([] if protein is None else [cs.val(protein)])
+        obj = lightmotif.EncodedSequence(*args)
+        cs.slots[dst] = obj
+        return "V:" + render(obj)
+
+    if name == "et":
+        dst, src = int(f[1]), int(f[2])
+        cs.slots.pop(dst, None)
+        cs.shadow.pop(dst, None)
+        me = cs.recv(src, lightmotif.EncodedSequence)
+        sh = cs.shadow.get(src)
+        if isinstance(sh, dict) and "es" in sh:
+            p, text = sh["es"]
+            q = cs.cv("stripe~%s~%s" % (tag(p), text.encode("utf-8").hex() or "-"), lambda: lmcore.stripe(p, text, 0))
+            if q is not None:
+                cs.shadow[dst] = q
+        obj = me.stripe()
+        cs.slots[dst] = obj
+        return "V:" + render(obj)
+
+    if name == "cp":
+        dst, src, how = int(f[1]), int(f[2]), f[3]
+        cs.slots.pop(dst, None)
+        cs.shadow.pop(dst, None)
+        me = cs.get(src)
+        if isinstance(me, (lightmotif.Scanner, lightmotif.Motif, list)) or (how == "m" and not isinstance(me, (lightmotif.EncodedSequence, lightmotif.StripedSequence))):
+            raise Unbound()
+        sh = cs.shadow.get(src)
+        if isinstance(me, (lightmotif.EncodedSequence, lightmotif.StripedSequence)) and sh is not None:
+            cs.shadow[dst] = sh      # core values are immutable snapshots
+        obj = me.copy() if how == "m" else copy.copy(me)
+        cs.slots[dst] = obj
+        return "V:" + render(obj)
+
+    if name == "eq":
+        src, other = int(f[1]), arg(2)
+        me = cs.get(src)
+        if not isinstance(me, (lightmotif.CountMatrix, lightmotif.WeightMatrix, lightmotif.ScoringMatrix)):
+            raise Unbound()
+        sh = cs.shadow.get(src)
+        if sh is not None and other[0] == "V" and other[1] in cs.shadow and not isinstance(cs.shadow[other[1]], dict):
+            so = cs.shadow[other[1]]
+            cs.oracle["eq~%s~%s" % (c(sh), c(so))] = "true" if lmcore.core_eq(sh, so) else "false"
+        r = (me == cs.val(other))
+        if r is not True and r is not False:
+            return "E:NotBool"
+        ne = (me != cs.val(other))
+        if ne is not (not r):
+            return "E:NeInconsistent"
+        return "V:b:%d" % (1 if r else 0)
+
+    if name == "sr":
+        src = int(f[1])
+        me = cs.recv(src, lightmotif.EncodedSequence)
+        return "V:s:" + (str(me).encode("utf-8").hex() or "-")
+
+    if name == "sd":
+        dst, src = int(f[1]), int(f[2])
+        cs.slots.pop(dst, None)
+        cs.shadow.pop(dst, None)
+        me = cs.recv(src, lightmotif.ScoringMatrix)
+        sh = cs.shadow.get(src)
+        if sh is not None:
+            cs.core("dist_sf~%s" % c(sh), lambda: lmcore.dist_sf(sh), lambda r: r)
+        d = me.score_distribution
+        same = d is me.score_distribution
+        shared = False
+        for o in list(cs.slots.values()):
+            if o is not me and isinstance(o, lightmotif.ScoringMatrix):
+                try:
+                    shared = shared or (o.score_distribution is d)
+                except Exception:
+                    pass
+        vals = memoryview(d).tolist()
+        h = 0xcbf29ce484222325
+        for x in vals:
+            for b in ("%d," % lmcore.f64bits(x)).encode():
+                h = ((h ^ b) * 0x100000001b3) & 0xFFFFFFFFFFFFFFFF
+        cs.slots[dst] = d
+        return "V:sd:%d:%016x:same=%d:shared=%d" % (len(vals), h, 1 if same else 0, 1 if shared else 0)
+
+    if name == "fo":
+        dst = int(f[1])
+        data = bytes.fromhex(f[2] if f[2] != "-" else "")
+        cs.slots[dst] = io.BytesIO(data)
+        cs.shadow[dst] = {"stream": lmcore.stream(data)}
+        return "V:file"
+
+    if name == "ll":
+        dst, fl, fmt, protein = int(f[1]), int(f[2]), arg(3), arg(4)
+        cs.slots.pop(dst, None)
+        cs.shadow.pop(dst, None)
+        fobj = cs.recv(fl, io.BytesIO)
+        p = boolv(protein)
+        fm = "jaspar" if fmt is None else (fmt[1] if fmt[0] == "s" else None)
+        sh = cs.shadow.get(fl)
+        if p is False and fm in ("jaspar", "jaspar16", "uniprobe", "transfac") and isinstance(sh, dict) and "stream" in sh:
+            try:
+                cs.shadow[dst] = {"reader": lmcore.lazy_reader(sh["stream"], fm, False), "calls": 0, "id": dst}
+            except (lmcore.CorePanic, lmcore.CoreErr):
+                pass
+        args = [fobj] + ([] if fmt is None else [cs.val(fmt)])
+        kw = {} if protein is None else {"protein": cs.val(protein)}
+        obj = lightmotif.Loader(*args, **kw)
+        cs.slots[dst] = obj
+        return "V:loader"
+
+    if name == "ln":
+        src, k = int(f[1]), int(f[2])
+        me = cs.recv(src, lightmotif.Loader)
+        sh = cs.shadow.get(src)
+        out = []
+        for _ in range(k):
+            # mirror the call on the core reader first (both sides consume the shared stream in step)
+            stop_core = False
+            if isinstance(sh, dict) and "reader" in sh:
+                key = "lnext~%d~%d" % (sh["id"], sh["calls"])
+                sh["calls"] += 1
+                try:
+                    it = lmcore.lazy_next(sh["reader"])
+                    if it is None:
+                        cs.oracle[key] = "stop"
+                    elif it[0] == "err":
+                        cs.oracle[key] = "err+" + it[1]
+                    else:
+                        cs.oracle[key] = "ok+%s+%s+%s+%s+%s+%s" % (it[1], hx(it[2]), hx(it[3]), hx(it[4]), hx(it[5]),
+                                                                  "N" if it[6] is None else c(it[6]))
+                        if it[6] is not None:
+                            if it[1] == "uniprobe":
+                                cs.sh_motif_from_freq(it[6])
+                            else:
+                                cs.sh_motif_from_counts(it[6])
+                except lmcore.CorePanic:
+                    cs.oracle[key] = "P"
+            try:
+                m = next(me)
+            except StopIteration:
+                break
+            except BaseException as e:
+                out.append(exc_outcome(e))
+                break
+            out.append(render(m))
+        return "V:ld&" + "&".join(out) if out else "V:ld"
+
+    if name == "mt":
+        import threading
+        src, n = int(f[1]), int(f[2])
+        me = cs.recv(src, lightmotif.ScoringMatrix)
+        texts = [("ACGTTGCA" * (5 + 3 * i) + "TTGACA" * i)[: 40 + 37 * i] for i in range(n)]
+
+        def work(text, out):
+            try:
+                q = lightmotif.stripe(text)
+                res = []
+                for _ in range(20):
+                    sc = me.calculate(q)
+                    res.append((len(sc), lmcore.f32bits(sc.max()) if len(sc) else None, sc.argmax(), tuple(sc.threshold(0.0))))
+                res.append(lmcore.f64bits(me.pvalue(1.0)))
+                out.append(res)
+            except BaseException as e:
+                out.append(exc_outcome(e))
+        seq_out = []
+        for t in texts:
+            work(t, seq_out)
+        par_out = [[] for _ in texts]
+        threads = [threading.Thread(target=work, args=(t, o)) for t, o in zip(texts, par_out)]
+        for t in threads:
+            t.start()
+        for t in threads:
+            t.join()
+        ok = all(len(o) == 1 and o[0] == s for o, s in zip(par_out, seq_out)) and all(not isinstance(s, str) for s in seq_out)
+        if any(s == "P" for s in seq_out) or any(o and o[0] == "P" for o in par_out):
+            return "P"
+        return "V:mt:ok" if ok else "V:mt:mismatch"
 
     if name == "dl":
         slot = int(f[1])
@@ -810,6 +1050,37 @@ def run_op(cs, op):
         return "V:deleted"
 
     raise ValueError("unknown op " + op)
+
+
+class FaultyFile:
+    """a file object whose k-th read() call misbehaves"""
+
+    def __init__(self, data, what, kth, chunk):
+        self.b = io.BytesIO(data)
+        self.what, self.kth, self.chunk = what, kth, chunk
+        self.calls = 0
+
+    def read(self, n=-1):
+        self.calls += 1
+        if self.calls == self.kth:
+            w = self.what
+            if w == "k":
+                raise KeyError("boom")
+            if w == "p":
+                raise PermissionError(13, "denied")
+            if w == "o":
+                raise OSError("no errno")
+            if w == "s":
+                return "text"
+            if w == "n":
+                return None
+            if w == "m":
+                return b"x" * (max(n, 0) + 5)
+            if w == "c":
+                self.b.close()
+        if n is None or n < 0:
+            return self.b.read()
+        return self.b.read(min(n, self.chunk))
 
 
 class NoRead:
